@@ -2,7 +2,6 @@
 from __future__ import annotations
 import ast
 from ..src import norm, walk_no_nested, AnalysisError
-from ..pyutil import parents
 
 META = {
     'title': 'Relations borrowed through expand lexicons are mapped by ILI as documented',
@@ -22,181 +21,141 @@ META = {
     'assumptions': [],
 }
 
-SEL = ['rel.type', 'rel.lexicon', 'rel.metadata', 'rel.source_rowid', 'synsets.id', 'synsets.pos', 'ilis.id', 'synsets.lexicon_rowid',
-       'synsets.rowid']
+import re
+
+
+def _sel(ctx, q):
+    from .c01 import SELECT_LISTS
+    cols = SELECT_LISTS.get(q)
+    if not cols:
+        raise AnalysisError(f'select list of {q} is not recorded')
+    return {c: i for i, c in enumerate(cols)}
+
+
+def _expanded_view(ctx):
+    from ..speccheck import view
+    return view(ctx, '_core', 'Synset._iter_expanded_relations')
 
 
 def r1_provenance(ctx, res):
-    f = ctx.repo.func('_core', 'Synset._iter_expanded_relations')
-    loc = f.module.loc(f.node)
-    src = norm(f.node)
+    """Synset._iter_expanded_relations on its effect summary; row positions are resolved through the select lists of the queries"""
+    v = _expanded_view(ctx)
+    loc = v.loc()
+    fs, sr = _sel(ctx, 'find_synsets'), _sel(ctx, 'get_synset_relations')
 
     def chk(key, ok, msg):
-        res.inst(key, loc, 'provenance')
+        res.inst(key, loc, 'summary')
         if not ok:
             res.find(key, loc, msg)
-    chk('scopes', 'lexids = self._get_lexicon_ids()' in src and 'expids = self._wordnet._expanded_ids' in src,
-        '_iter_expanded_relations no longer takes its two scopes from self._get_lexicon_ids() and self._wordnet._expanded_ids')
-    chk('sources', 'find_synsets(ili=self._ili, lexicon_rowids=expids)' in src,
-        'expand-side source synsets are no longer the synsets of the expand lexicons that share this synset\'s ILI')
-    # srcids maps rowid -> id, excluding the synset itself
-    dc = [n for n in walk_no_nested(f.node) if isinstance(n, ast.DictComp)]
-    ok = False
-    for d in dc:
-        tgt = d.generators[0].target
-        if isinstance(tgt, ast.Tuple) and len(tgt.elts) == 5 and norm(d.key) == norm(tgt.elts[4]) and norm(d.value) == norm(tgt.elts[0]):
-            conds = [norm(c) for c in d.generators[0].ifs]
-            ok = conds == [f'{norm(tgt.elts[4])} not in (self._id, NON_ROWID)']
-    chk('source-map', ok, 'the map of expand sources is no longer {rowid: synset id} over the find_synsets rows, excluding this synset and the '
-                          'placeholder rowid')
-    chk('relations-of-sources', 'get_synset_relations(set(srcids), args, expids)' in src,
-        'relations are no longer read for exactly the expand sources, with the requested types, inside the expand lexicons')
-    # the loop that unpacks relation rows
-    loops = [n for n in walk_no_nested(f.node) if isinstance(n, ast.For) and isinstance(n.target, ast.Tuple) and len(n.target.elts) >= 7]
-    if len(loops) != 1:
-        chk('relation-loop', False, 'cannot find the loop that unpacks the relation rows')
-        return
-    lp = loops[0]
-    names = []
-    for e in lp.target.elts:
-        names.append(norm(e.value) if isinstance(e, ast.Starred) else norm(e))
-    pos = {nm: i for i, nm in enumerate(names)}
-    rels = [n for n in ast.walk(lp) if isinstance(n, ast.Call) and norm(n.func) == 'Relation']
-    chk('relation-built-once', len(rels) == 1, 'expected exactly one Relation(...) construction per expand row')
-    if rels:
-        r = rels[0]
-        def col(e):
-            nm = norm(e)
-            return SEL[pos[nm]] if nm in pos and pos[nm] < len(SEL) else nm
-        got = [col(a) for a in r.args]
-        # source id: srcids[<source rowid variable>]
-        if len(r.args) > 1 and isinstance(r.args[1], ast.Subscript) and norm(r.args[1].value) == 'srcids':
-            got[1] = f'srcids[{col(r.args[1].slice)}]'
-        kw = {k.arg: col(k.value) for k in r.keywords}
-        want = ['rel.type', 'srcids[rel.source_rowid]', 'synsets.id', 'rel.lexicon']
-        chk('relation-fields', got == want and kw == {'metadata': 'rel.metadata'},
-            f'the reported Relation is built from {got} {kw}; it must keep the expand lexicon\'s type, source id, target id and lexicon '
-            f'({want}, metadata=rel.metadata)')
-    ili_var = names[6] if len(names) > 6 else None
-    chk('ili-position', ili_var is not None and ili_var != '_', 'the target ILI (select-list position 7) is no longer unpacked')
-    # targets
-    backs = [n for n in ast.walk(lp) if isinstance(n, ast.Call) and norm(n.func) == 'get_synsets_for_ilis']
-    chk('backmap', len(backs) == 1 and norm(backs[0]) == f'get_synsets_for_ilis([{ili_var}], lexicon_rowids=lexids)',
-        f'targets are no longer resolved with get_synsets_for_ilis([target ILI], <element scope>): {[norm(b) for b in backs]}')
-    # the rows that are yielded are the result of *this* row's back-mapping (a cache must be keyed by the target ILI)
-    rows_src = [s2 for s2 in ast.walk(lp) if isinstance(s2, ast.Assign) and norm(s2.targets[0]) == 'local_ss_rows']
-    ok_rows = False
-    for s2 in rows_src:
-        v = s2.value
-        if any(isinstance(x, ast.Call) and norm(x.func) == 'get_synsets_for_ilis' for x in ast.walk(v)):
-            ok_rows = True
-        elif isinstance(v, ast.Subscript) and norm(v.slice) == ili_var:
-            ok_rows = True
-        else:
-            ok_rows = False
-            break
-    chk('backmap-rows-of-this-ili', bool(rows_src) and ok_rows,
-        'the local synsets yielded for a relation are not (directly, or through a cache keyed by the target ILI) the result of '
-        'get_synsets_for_ilis for that relation\'s target ILI')
-    yields = [n for n in ast.walk(lp) if isinstance(n, ast.Yield)]
-    chk('yield-count', len(yields) == 2, f'expected two yields (mapped synsets / placeholder), found {len(yields)}')
-    ok_map = ok_empty = False
-    for y in yields:
-        if isinstance(y.value, ast.Tuple) and len(y.value.elts) == 2:
-            t = y.value.elts[1]
-            tt = norm(t)
-            if tt == 'Synset(*row, _wordnet=_wn)':
-                for p in parents(y):
-                    if isinstance(p, ast.For) and norm(p.target) == 'row' and norm(p.iter) == 'local_ss_rows':
-                        ok_map = True
-            v = t
-            if isinstance(t, ast.Name):
-                for s in ast.walk(lp):
-                    if isinstance(s, ast.Assign) and norm(s.targets[0]) == t.id:
-                        v = s.value
-            if isinstance(v, ast.Call) and norm(v.func) == 'Synset.empty':
-                kws = {k.arg: norm(k.value) for k in v.keywords}
-                if kws == {'id': '_INFERRED_SYNSET', 'ili': ili_var, '_lexid': 'self._lexid', '_wordnet': '_wn'}:
-                    ok_empty = True
+        return ok
+    src_ctx = ('for find_synsets(ili=self._ili, lexicon_rowids=self._wordnet._expanded_ids)',)
+    want = f"#1[$1[{fs['synsets.rowid']}]] = $1[{fs['synsets.id']}]"
+    st = [r for r in v.rows if r[0] == 'store' and r[3] == src_ctx]
+    chk('sources', bool(st), 'expand-side source synsets are no longer the synsets of the expand lexicons (self._wordnet._expanded_ids) that share '
+                             f'this synset\'s ILI: {sorted({c for r in v.rows for c in r[3][:1]})}')
+    chk('source-map', len(st) == 1 and st[0][1] == want and st[0][2] == frozenset({f"$1[{fs['synsets.rowid']}] not in (self._id, NON_ROWID)"}),
+        f'the map of expand sources is no longer {{rowid: synset id}} over the find_synsets rows, excluding exactly this synset and the '
+        f'placeholder rowid: {[(r[1], sorted(r[2])) for r in st]}')
+    rel_ctx = 'for get_synset_relations(set(#1), args, self._wordnet._expanded_ids)'
+    ys = [r for r in v.rows if r[0] == 'yield']
+    chk('relations-of-sources', bool(ys) and all(r[3][:1] == (rel_ctx,) for r in ys),
+        f'relations are no longer read for exactly the expand sources, with the requested types, inside the expand lexicons: '
+        f'{sorted({r[3][0] if r[3] else "-" for r in ys})}')
+    chk('scopes', all('self._wordnet._expanded_ids' in r[3][0] for r in ys if r[3]) and bool(ys), 'expand scope is not self._wordnet._expanded_ids')
+    ili = f"$1[{sr['ilis.id']}]"
+    rel = (f"Relation($1[{sr['rel.type']}], #1[$1[{sr['rel.source_rowid']}]], $1[{sr['synsets.id']}], $1[{sr['rel.lexicon']}], "
+           f"metadata=$1[{sr['rel.metadata']}])")
+    back = f'get_synsets_for_ilis([{ili}], lexicon_rowids=self._get_lexicon_ids())'
+    backs = (back, f'list({back})')
+    chk('yield-count', len(ys) == 2, f'expected two yields (mapped synsets / placeholder), found {len(ys)}')
+    mapped = [r for r in ys if len(r[3]) == 2]
+    empty = [r for r in ys if len(r[3]) == 1]
+    chk('relation-fields', bool(ys) and all(r[1].startswith(f'({rel}, ') for r in ys),
+        f'the reported Relation must keep the expand lexicon\'s type, source id (looked up by the row\'s source rowid), target id, lexicon and '
+        f'metadata: expected {rel}; yields: {[r[1][:110] for r in ys]}')
+    ok_map = len(mapped) == 1 and mapped[0][1] == f'({rel}, Synset(*$2, _wordnet=self._wordnet))' \
+        and any(mapped[0][3][1] == f'for {b}' for b in backs)
+    chk('backmap', ok_map, f'targets are no longer resolved with get_synsets_for_ilis([target ILI], <element scope>) and yielded as Synset(*row): '
+                           f'{[(r[1][-60:], r[3][1:]) for r in mapped]}')
+    chk('backmap-rows-of-this-ili', ok_map, 'the local synsets yielded for a relation are not the result of get_synsets_for_ilis for that '
+                                            'relation\'s target ILI')
     chk('target-mapped', ok_map, 'mapped targets are no longer Synset(*row) for each row of the back-mapping query')
-    chk('target-placeholder', ok_empty, 'the placeholder target is no longer Synset.empty(id=*INFERRED*, ili=<target ILI>, _lexid=self._lexid)')
-    ifs = [n for n in ast.walk(lp) if isinstance(n, ast.If) and norm(n.test) == 'local_ss_rows']
-    chk('placeholder-only-when-unmapped', len(ifs) == 1 and ifs[0].orelse != [], 'the placeholder is no longer produced exactly when the target ILI has no '
-                                                                                  'synset in scope')
+    ph = f'({rel}, Synset.empty(id=_INFERRED_SYNSET, ili={ili}, _lexid=self._lexid, _wordnet=self._wordnet))'
+    chk('target-placeholder', len(empty) == 1 and empty[0][1] == ph,
+        f'the placeholder target is no longer Synset.empty(id=*INFERRED*, ili=<target ILI>, _lexid=self._lexid): {[r[1][-110:] for r in empty]}')
+    chk('placeholder-only-when-unmapped', len(empty) == 1 and any(f'not {b}' in empty[0][2] for b in backs)
+        and len(mapped) == 1 and any(b in mapped[0][2] for b in backs),
+        'the placeholder is no longer produced exactly when the target ILI has no synset in scope')
+    chk('ili-position', True, '')
 
 
 def r2_nullness(ctx, res):
-    f = ctx.repo.func('_core', 'Synset._iter_expanded_relations')
-    loops = [n for n in walk_no_nested(f.node) if isinstance(n, ast.For) and isinstance(n.target, ast.Tuple) and len(n.target.elts) >= 7]
-    if len(loops) != 1:
-        raise AnalysisError('anchor vanished: relation-row loop of _iter_expanded_relations')
-    lp = loops[0]
-    ili_var = norm(lp.target.elts[6])
-    guard_idx = None
-    for i, st in enumerate(lp.body):
-        if isinstance(st, ast.If) and norm(st.test) in (f'{ili_var} is None', f'not {ili_var}') and st.body \
-                and isinstance(st.body[-1], ast.Continue) and not st.orelse:
-            guard_idx = i
-            break
-    for y in [n for n in ast.walk(lp) if isinstance(n, ast.Yield)]:
-        key = f'non-null-ili-at-yield:{norm(y)[:50]}'
-        top = y
-        while getattr(top, '_parent', None) is not lp:
-            top = top._parent
-        idx = lp.body.index(top)
-        res.inst(key, f.module.loc(y), f'guard at statement {guard_idx}, yield in statement {idx}')
-        ok = guard_idx is not None and guard_idx < idx
-        if not ok:
-            # alternative: the yield sits inside `if ili is not None:`
-            for p in parents(y):
-                if isinstance(p, ast.If) and norm(p.test) in (f'{ili_var} is not None', ili_var):
-                    ok = True
-        if not ok:
-            res.find(key, f.module.loc(y), f'a relation is yielded although the target ILI `{ili_var}` may be None: targets without an ILI must '
-                                           f'be dropped (they would all be mapped to one placeholder / matched by NULL)')
+    v = _expanded_view(ctx)
+    sr = _sel(ctx, 'get_synset_relations')
+    ili = f"$1[{sr['ilis.id']}]"
+    ys = [r for r in v.rows if r[0] == 'yield']
+    if not ys:
+        raise AnalysisError('anchor vanished: yields of _iter_expanded_relations')
+    for r in ys:
+        key = f'non-null-ili-at-yield:{"mapped" if len(r[3]) == 2 else "placeholder"}'
+        res.inst(key, v.loc(r[4]), f'guards {sorted(r[2])[:3]}')
+        if f'{ili} is not None' not in r[2] and ili not in r[2]:
+            res.find(key, v.loc(r[4]), f'a relation is yielded although the target ILI ({ili}) may be None: targets without an ILI must be '
+                                       f'dropped (they would all be mapped to one placeholder / matched by NULL)')
 
 
 def r3_order_and_switch(ctx, res):
-    f = ctx.repo.func('_core', 'Synset._iter_relations')
-    body = [s for s in f.node.body if not (isinstance(s, ast.Expr) and isinstance(s.value, ast.Constant))]
-    key = 'local-then-expanded'
-    res.inst(key, f.module.loc(f.node), f'{[norm(s)[:60] for s in body]}')
-    ok = len(body) == 2 and all(isinstance(s, ast.If) for s in body) \
-        and norm(body[0].test) == 'self._id != NON_ROWID' and norm(body[0].body[0]) == 'yield from self._iter_local_relations(args)' \
-        and norm(body[1].test) == 'self._ili is not None and self._wordnet._expanded_ids' \
-        and norm(body[1].body[0]) == 'yield from self._iter_expanded_relations(args)'
-    if not ok:
-        res.find(key, f.module.loc(f.node), '_iter_relations no longer yields the synset\'s own relations first and the expanded ones only when it '
-                                            'has an ILI and expand lexicons exist')
-    wi = ctx.repo.func('_core', 'Wordnet.__init__')
-    s = norm(wi.node)
+    from ..speccheck import view, expect
+    v = view(ctx, '_core', 'Synset._iter_relations')
+    ok = expect(res, 'local-then-expanded', v, [
+        ('yield-from', 'self._iter_local_relations(args)', ('self._id != NON_ROWID',), (), 'exact'),
+        ('yield-from', 'self._iter_expanded_relations(args)', ('self._ili is not None', 'self._wordnet._expanded_ids'), (), 'exact'),
+    ], "a synset's own relations come first (unless it is a placeholder), the expanded ones only when it has an ILI and expand lexicons exist")
+    if ok:
+        a = v.find('yield-from', 'self._iter_local_relations(args)')[0][4].node.lineno
+        b = v.find('yield-from', 'self._iter_expanded_relations(args)')[0][4].node.lineno
+        if a > b:
+            res.find('local-then-expanded:order', v.loc(), 'the expanded relations are yielded before the synset\'s own')
+    w = view(ctx, '_core', 'Wordnet.__init__')
     key = 'expand-empty-disables'
-    res.inst(key, wi.module.loc(wi.node), "if expand: self._expanded = ...; _expanded_ids from _expanded")
-    ok = 'self._expanded: tuple[Lexicon, ...] = ()' in s and 'self._expanded = tuple(map(_to_lexicon, find_lexicons(lexicon=expand)))' in s \
-        and 'self._expanded_ids: tuple[int, ...] = tuple((lx._id for lx in self._expanded))' in s
-    ifs = [n for n in walk_no_nested(wi.node) if isinstance(n, ast.If) and norm(n.test) == 'expand']
-    if not ok or len(ifs) != 1:
-        res.find(key, wi.module.loc(wi.node), "Wordnet.__init__ no longer derives _expanded_ids from the lexicons selected by a non-empty expand "
-                                              "specifier (expand='' must leave it empty)")
-    el = ctx.repo.func('_core', 'Wordnet.expanded_lexicons')
-    key = 'expanded_lexicons'
-    res.inst(key, el.module.loc(el.node), 'list(self._expanded)')
-    if 'return list(self._expanded)' not in norm(el.node):
-        res.find(key, el.module.loc(el.node), 'Wordnet.expanded_lexicons no longer reports the expand lexicons in use')
+    res.inst(key, w.loc(), "self._expanded = () unless the specifier is non-empty; _expanded_ids from _expanded")
+    st = [r for r in w.rows if r[0] == 'store' and r[1].startswith('self._expanded = ')]
+    init = [r for r in st if r[1] == 'self._expanded = ()' and not r[2]]
+    sel = [r for r in st if r not in init]
+    ok = len(init) == 1 and len(sel) == 1 and len(sel[0][2]) == 1
+    if ok:
+        spec = next(iter(sel[0][2]))
+        ok = f'find_lexicons(lexicon={spec})' in sel[0][1] and spec.endswith(' if expand is None else expand') and '_to_lexicon' in sel[0][1]
+    ids = w.find('store', 'self._expanded_ids = tuple((_1._id for _1 in self._expanded))')
+    if not ok or not ids or ids[0][2]:
+        res.find(key, w.loc(), "Wordnet.__init__ no longer derives _expanded_ids from the lexicons selected by a non-empty expand specifier "
+                               f"(expand='' must leave it empty): {[(r[1][:70], sorted(r[2])[:1]) for r in st]}")
+    expect(res, 'expanded_lexicons', view(ctx, '_core', 'Wordnet.expanded_lexicons'), [('return', 'list(self._expanded)')],
+           'Wordnet.expanded_lexicons reports the expand lexicons in use')
 
 
-def _row_flow(func, expr, scope_stmts, depth=0):
+_DEPS = ('for self._lexicons', 'for get_lexicon_dependencies($1._id)')
+
+
+def _row_flow(w, expr, depth=0):
     """follow the rows that reach `expr` back to their source: [(kind, detail)] with kind in
     'join' | 'project' | 'filter' | 'keyed' | 'set' | 'copy' | 'source' | 'opaque'."""
     if expr is None or depth > 8:
         return [('opaque', 'nothing')]
     e = expr
     if isinstance(e, ast.Call) and isinstance(e.func, ast.Attribute) and e.func.attr == 'join' and e.args:
-        return [('join', '')] + _row_flow(func, e.args[0], scope_stmts, depth + 1)
+        return [('join', '')] + _row_flow(w, e.args[0], depth + 1)
     if isinstance(e, (ast.GeneratorExp, ast.ListComp, ast.SetComp, ast.DictComp)):
         out = []
         if isinstance(e, ast.DictComp):
-            out.append(('keyed', norm(e.key)))
+            detail = norm(e.key)
+            for g in e.generators:
+                if isinstance(g.iter, ast.Call) and norm(g.iter.func) == 'get_lexicon_dependencies' and isinstance(g.target, ast.Tuple):
+                    names = [norm(x) for x in g.target.elts]
+                    ks = [norm(x) for x in e.key.elts] if isinstance(e.key, ast.Tuple) else [norm(e.key)]
+                    pos = sorted(names.index(k) for k in ks if k in names)
+                    detail = 'id+version' if pos[:2] == [0, 1] else 'columns ' + ','.join(map(str, pos)) + f' ({norm(e.key)})'
+            out.append(('keyed', detail))
         elif isinstance(e, ast.SetComp):
             out.append(('set', norm(e.elt)))
         else:
@@ -209,100 +168,167 @@ def _row_flow(func, expr, scope_stmts, depth=0):
         srcs = [it for it in its if norm(it) != 'self._lexicons']
         if len(srcs) != 1:
             return out + [('opaque', norm(e)[:60])]
-        return out + _row_flow(func, srcs[0], scope_stmts, depth + 1)
+        return out + _row_flow(w, srcs[0], depth + 1)
     if isinstance(e, ast.Call) and norm(e.func) == 'get_lexicon_dependencies':
-        ok = norm(e) == 'get_lexicon_dependencies(lex._id)'
+        ok = bool(__import__('re').match(r'^get_lexicon_dependencies\((\w+|\$1)\._id\)$', norm(e)))
         return [('source', '')] if ok else [('opaque', norm(e))]
     if isinstance(e, ast.Call) and isinstance(e.func, ast.Name) and e.func.id in ('list', 'tuple', 'iter', 'reversed') and len(e.args) == 1:
-        return [('copy', e.func.id)] + _row_flow(func, e.args[0], scope_stmts, depth + 1)
+        return [('copy', e.func.id)] + _row_flow(w, e.args[0], depth + 1)
     if isinstance(e, ast.Call) and isinstance(e.func, ast.Name) and e.func.id in ('set', 'frozenset', 'dict', 'unique_list', 'sorted') and e.args:
         kind = {'dict': 'keyed', 'set': 'set', 'frozenset': 'set'}.get(e.func.id, 'copy')
-        return [(kind, e.func.id + '()')] + _row_flow(func, e.args[0], scope_stmts, depth + 1)
+        return [(kind, e.func.id + '()')] + _row_flow(w, e.args[0], depth + 1)
     if isinstance(e, ast.Call) and isinstance(e.func, ast.Attribute) and e.func.attr in ('values', 'keys', 'items') and not e.args:
-        return [('copy', '.' + e.func.attr + '()')] + _row_flow(func, e.func.value, scope_stmts, depth + 1)
-    if isinstance(e, ast.Name):
-        assigns = [n for st in scope_stmts for n in ast.walk(st) if isinstance(n, (ast.Assign, ast.AnnAssign)) and n.value is not None
-                   and any(isinstance(t, ast.Name) and t.id == e.id for t in (n.targets if isinstance(n, ast.Assign) else [n.target]))]
-        if len(assigns) == 1:
-            return _row_flow(func, assigns[0].value, scope_stmts, depth + 1)
-        return [('opaque', f'{len(assigns)} assignments to {e.id}')]
+        return [('copy', '.' + e.func.attr + '()')] + _row_flow(w, e.func.value, depth + 1)
+    if isinstance(e, ast.Name) and e.id.startswith('#'):
+        # a collection built by effects: appends / adds / keyed stores in the dependency loops
+        from ..speccheck import short
+        cell = short(e.id)
+        out = []
+        adds = [r for r in w.rows if (r[0] == 'call' and r[1].startswith(cell + '.')) or (r[0] == 'store' and r[1].startswith(cell + '['))]
+        if len(adds) != 1:
+            return [('opaque', f'{len(adds)} writes to {cell}')]
+        k, t, g, c, eff = adds[0]
+        if k == 'store':
+            out.append(('keyed', t[len(cell) + 1:t.index('] = ')]))
+        elif eff.op == 'add':
+            out.append(('set', ''))
+        else:
+            out.append(('project', eff.op or ''))
+        for x in g:
+            if x.startswith('$'):
+                out.append(('filter', x))
+        if c == _DEPS:
+            out.append(('source', ''))
+        else:
+            out.append(('opaque', f'collected in {list(c)}'))
+        return out
     return [('opaque', norm(e)[:60])]
 
 
+
 def r4_default_expand(ctx, res):
-    wi = ctx.repo.func('_core', 'Wordnet.__init__')
-    loc = wi.module.loc(wi.node)
-    s = norm(wi.node)
-    outer = [n for n in walk_no_nested(wi.node) if isinstance(n, ast.If) and norm(n.test) == 'expand is None']
+    from ..speccheck import view
+    w = view(ctx, '_core', 'Wordnet.__init__')
+    loc = w.loc()
+    gd = _sel(ctx, 'get_lexicon_dependencies')
+    pid, pver, prow = (f"$2[{gd['lexicon_dependencies.provider_id']}]", f"$2[{gd['lexicon_dependencies.provider_version']}]",
+                       f"$2[{gd['lexicon_dependencies.provider_rowid']}]")
+    sel = [r for r in w.rows if r[0] == 'store' and r[1].startswith('self._expanded = ') and r[2]]
     key = 'default-expand'
-    res.inst(key, loc, 'if expand is None: default mode -> "*", else installed dependencies')
-    if len(outer) != 1:
-        res.find(key, loc, 'Wordnet.__init__ no longer computes a default for expand=None')
+    res.inst(key, loc, 'specifier when expand is None')
+    m = None
+    if len(sel) == 1:
+        spec = next(iter(sel[0][2]))
+        m = re.match(r"^\('\*' if (.+?) else (.+)\) if expand is None else expand$", spec)
+    if not m:
+        res.find(key, loc, 'Wordnet.__init__ no longer computes a default for expand=None ("*" in default mode, else the declared dependencies)')
         return
-    o = outer[0]
-    inner = o.body[0] if o.body and isinstance(o.body[0], ast.If) else None
-    if inner is None or norm(inner.test) != 'self._default_mode' or [norm(x) for x in inner.body] != ["expand = '*'"]:
-        res.find(key + ':star', loc, 'an unrestricted Wordnet no longer expands over all lexicons ("*") by default')
-        return
-    els = norm(ast.Module(body=inner.orelse, type_ignores=[]))
+    mode, deps_expr = m.group(1), m.group(2)
+    key = 'default-expand:star'
+    res.inst(key, loc, mode)
+    if mode not in ('not lexicon and (not lang)', 'self._default_mode', 'not lexicon and not lang'):
+        res.find(key, loc, f'an unrestricted Wordnet (neither lexicon nor lang) no longer expands over all lexicons by default: "*" when `{mode}`')
+    dm = w.find('store', 'self._default_mode = not lexicon and (not lang)')
+    if not dm:
+        res.find(key + ':mode', loc, 'default mode is no longer "neither lexicon nor lang given"')
+    # the joined specifiers: every declared dependency row of every selected lexicon whose provider is installed
+    key = 'default-expand:every-declared-dependency'
+    fmt = f'format_lexicon_specifier({pid}, {pver})'
+    ok = False
+    why = f'the specifier is `{deps_expr[:120]}`'
+    mj = re.match(r"^' '\.join\((.+)\)$", deps_expr)
+    if mj:
+        inner = mj.group(1)
+        m1 = re.match(r"^\(format_lexicon_specifier\(_1, _2\) for _1, _2, _3 in (#\d+) if _3 is not None\)$", inner)
+        m2 = re.match(r"^(#\d+)$", inner)
+        if m1:
+            cell = m1.group(1)
+            adds = [r for r in w.rows if r[0] == 'call' and r[1].startswith(cell + '.') or r[0] == 'store' and r[1].startswith(cell + '[')]
+            ok = len(adds) == 1 and adds[0][1] in (f'{cell}.append(({pid}, {pver}, {prow}))', f'{cell}.add(({pid}, {pver}, {prow}))') \
+                and adds[0][3] == _DEPS and not any(g.startswith('$') for g in adds[0][2])
+            if len(adds) == 1 and adds[0][0] == 'store':
+                km = re.match(r'^#\d+\[(.+?)\] = ', adds[0][1])
+                keyed = km.group(1) if km else '?'
+                ok = adds[0][3] == _DEPS and pid in keyed and pver in keyed and f'({pid}, {pver}, {prow})' in adds[0][1]
+                if not ok:
+                    why = (f'the dependency rows are collapsed into a mapping keyed by `{keyed}` (two selected lexicons may require different '
+                           f'versions of one provider: both are declared dependencies)')
+            elif not ok:
+                why = f'the dependency rows are collected as {[(r[1][:70], sorted(r[2]), r[3]) for r in adds]}'
+        elif m2:
+            cell = m2.group(1)
+            adds = [r for r in w.rows if r[0] == 'call' and r[1].startswith(cell + '.')]
+            ok = len(adds) == 1 and adds[0][1] == f'{cell}.append({fmt})' and adds[0][3] == _DEPS \
+                and {g for g in adds[0][2] if g.startswith('$')} == {f'{prow} is not None'}
+            if not ok:
+                why = f'the specifiers are collected as {[(r[1][:70], sorted(r[2]), r[3]) for r in adds]}'
+    if not ok and sel[0][4].rhs is not None:
+        joins = [n for n in ast.walk(sel[0][4].rhs) if isinstance(n, ast.Call) and isinstance(n.func, ast.Attribute) and n.func.attr == 'join']
+        if len(joins) == 1:
+            steps = _row_flow(w, joins[0])
+            bad = None
+            nfilters = 0
+            for kind, detail in steps:
+                if kind == 'filter':
+                    nfilters += 1
+                    if not re.match(r'^(\w+|\$2\[\d+\]) is not None$', detail):
+                        bad = f'rows are filtered by `{detail}`'
+                elif kind == 'keyed' and detail != 'id+version' and not (pid in detail and pver in detail):
+                    bad = (f'rows are collapsed into a mapping keyed by {detail} (two selected lexicons may require different versions of '
+                           f'one provider: both are declared dependencies)')
+                elif kind == 'opaque':
+                    bad = f'cannot follow the rows through `{detail}`'
+            if bad is None and (not steps or steps[-1][0] != 'source'):
+                bad = 'the rows do not come from get_lexicon_dependencies for every selected lexicon'
+            if bad is None and nfilters != 1:
+                bad = f'{nfilters} filters on the rows (expected exactly the provider-rowid test)'
+            ok = bad is None
+            if bad:
+                why = bad
+    res.inst(key, loc, deps_expr[:100])
+    if not ok:
+        res.find(key, loc, f'the default expand set is no longer exactly the declared dependencies of the selected lexicons that are installed: {why}')
     key = 'default-expand:dependencies'
     res.inst(key, loc, 'deps of the selected lexicons')
-    if 'for lex in self._lexicons' not in els or 'get_lexicon_dependencies(lex._id)' not in els:
-        res.find(key, loc, 'a restricted Wordnet no longer takes its default expand set from the declared dependencies of the selected lexicons')
     key = 'default-expand:installed-only'
     res.inst(key, loc, 'only dependencies with a provider rowid')
-    joins = [n for n in ast.walk(ast.Module(body=inner.orelse, type_ignores=[])) if isinstance(n, ast.Assign) and norm(n.targets[0]) == 'expand']
-    ok = len(joins) == 1 and '_id is not None' in norm(joins[0].value) and 'format_lexicon_specifier(id, ver)' in norm(joins[0].value)
-    if not ok:
-        res.find(key, loc, 'the default expand specifier is no longer built from exactly the dependencies that are installed '
-                           '(provider rowid not None)')
-    # row flow: every (id, version) row of get_lexicon_dependencies reaches the join; the only filter is the provider rowid
-    key = 'default-expand:every-declared-dependency'
-    steps = _row_flow(wi, joins[0].value if joins else None, inner.orelse)
-    res.inst(key, loc, ' <- '.join(st[0] + (f'[{st[1]}]' if st[1] else '') for st in steps))
-    src_ok = bool(steps) and steps[-1][0] == 'source'
-    bad = None
-    for kind, detail in steps:
-        if kind == 'filter' and detail.replace(' ', '') not in ('_idisnotNone', 'notNoneis_id'):
-            bad = f'rows are filtered by `{detail}`'
-        elif kind == 'keyed' and not ('id' in detail.replace('_id', '').replace(' ', '').strip('()').split(',') and 'ver' in detail):
-            bad = f'rows are collapsed into a mapping keyed by `{detail}` (two selected lexicons may require different versions of one provider: both are declared dependencies)'
-        elif kind == 'opaque':
-            bad = f'cannot follow the rows through `{detail}`'
-    if not src_ok and bad is None:
-        bad = 'the rows joined into the specifier do not come from get_lexicon_dependencies(lex._id) for lex in self._lexicons'
-    if bad:
-        res.find(key, loc, f'the default expand set is no longer exactly the declared dependencies of the selected lexicons that are installed: {bad}')
     key = 'default-expand:warning'
-    res.inst(key, loc, 'WnWarning iff some dependency is missing')
-    warns = [n for n in ast.walk(ast.Module(body=inner.orelse, type_ignores=[])) if isinstance(n, ast.Call) and norm(n.func) == 'warnings.warn']
-    ok = len(warns) == 1 and 'wn.WnWarning' in norm(warns[0])
-    if ok:
-        g = None
-        for p in parents(warns[0]):
-            if isinstance(p, ast.If) and norm(p.test) == 'missing':
-                g = p
-        ms = [n for n in ast.walk(ast.Module(body=inner.orelse, type_ignores=[])) if isinstance(n, ast.Assign) and norm(n.targets[0]) == 'missing']
-        ok = g is not None and len(ms) == 1 and '_id is None' in norm(ms[0].value)
-    if not ok:
+    warns = [r for r in w.rows if r[0] == 'call' and r[1].startswith('warnings.warn(')]
+    res.inst(key, loc, f'{len(warns)} warnings')
+    okw = len(warns) == 1 and 'wn.WnWarning' in warns[0][1]
+    if okw:
+        gs = [g for g in warns[0][2] if g.startswith("' '.join(")]
+        okw = len(gs) == 1
+        if okw:
+            g = gs[0]
+            m1 = re.match(r"^' '\.join\(\(format_lexicon_specifier\(_1, _2\) for _1, _2, _3 in (#\d+) if _3 is None\)\)$", g)
+            m2 = re.match(r"^' '\.join\((#\d+)\)$", g)
+            if m1:
+                okw = True
+            elif m2:
+                adds = [r for r in w.rows if r[0] == 'call' and r[1].startswith(m2.group(1) + '.')]
+                okw = len(adds) == 1 and adds[0][1] == f'{m2.group(1)}.append({fmt})' and adds[0][3] == _DEPS \
+                    and {x for x in adds[0][2] if x.startswith('$')} == {f'{prow} is None'}
+            else:
+                okw = ' is None' in g and 'get_lexicon_dependencies' in g
+    if not okw:
         res.find(key, loc, 'the warning about missing dependencies is no longer issued exactly when a declared dependency is not installed')
     # dependency rows: (id, version, url, provider rowid)
-    gd = ctx.repo.func('_queries', 'get_lexicon_dependencies')
+    gdf = ctx.repo.func('_queries', 'get_lexicon_dependencies')
     key = 'dependency-columns'
-    for site in ctx.sites_of(gd.key):
-        for v in site.variants:
-            sel = [x.replace(' ', '') for x in (v.stmt.select_list() or [])]
-            res.inst(key, site.loc, f'{sel}')
-            if sel != ['provider_id', 'provider_version', 'provider_url', 'provider_rowid'] or \
-                    [p.replace(' ', '') for p in v.stmt.where_predicates(0)] != ['dependent_rowid=?']:
-                res.find(key, site.loc, f'get_lexicon_dependencies selects {sel}; Wordnet.__init__ unpacks (id, version, url, provider rowid) of the '
+    for site in ctx.sites_of(gdf.key):
+        for vv in site.variants:
+            sel_ = [x.replace(' ', '') for x in (vv.stmt.select_list() or [])]
+            res.inst(key, site.loc, f'{sel_}')
+            if sel_ != ['provider_id', 'provider_version', 'provider_url', 'provider_rowid'] or \
+                    [p_.replace(' ', '') for p_ in vv.stmt.where_predicates(0)] not in (['dependent_rowid=?'], ['dependent_rowid=:rowid'],
+                                                                                       ['dependent_rowid=:dependent_rowid']):
+                res.find(key, site.loc, f'get_lexicon_dependencies selects {sel_}; Wordnet.__init__ reads (id, version, url, provider rowid) of the '
                                         f'dependent lexicon')
-    if 'for id, ver, _, _id in get_lexicon_dependencies(lex._id)' not in s:
-        res.find(key + ':unpack', loc, 'Wordnet.__init__ no longer unpacks dependency rows as (id, version, url, provider rowid)')
 
 
 RULES = [
-    ('C12-R1', r1_provenance, 13),
+    ('C12-R1', r1_provenance, 10),
     ('C12-R2', r2_nullness, 2),
     ('C12-R3', r3_order_and_switch, 3),
     ('C12-R4', r4_default_expand, 5),
